@@ -8,9 +8,15 @@ spec/C17/MCLifecycleGen.tla  generator: state graph of "one harness command at a
 spec/C17/LifecycleObs.tla    P-spec: verdicts on the events recorded from the real code (LifecycleObs.cfg: non-stopping
                              Judge used by this check; LifecycleObsStrict.cfg: the six invariants, for use by hand)
 spec/C17/LifecycleTrace.tla  M-level trace spec (conformance; a rejection is drift)
+spec/C17/NestedLifecycle.tla M-spec of the composition outer context + resources.NewNested + k >= 2 inner contexts
+                             (nestedArchetype.Close stops and awaits ALL inner contexts); variants ok / seed / firsterr / noawait
+spec/C17/MCNested*.cfg       exhaustive checks of it (deadlock check ON, liveness) + expected counterexamples of the broken variants
+spec/C17/MCNestedGen.tla     generator for the nested cases (commands also move the inner contexts)
+spec/C17/NestedTrace.tla     M-level trace spec of the nested cases (conformance; a rejection is drift)
 harness/cmd/c17drv           drives the real MPCalContext with gates, instrumented resources, goroutine
                              states and the Go runtime's deadlock detector (no hooks in /repo)
 """
+import collections
 import concurrent.futures
 import json
 import os
@@ -119,6 +125,103 @@ def walks_from_graph(init, last, out, rng, nrandom, cap=48):
     return cmds, len(env_edges)
 
 
+def nested_walks(init, last, out, rng, nrandom, cap=40):
+    """Walks of MCNestedGen's graph covering every (quiescent state, command) edge: each walk goes from the initial
+    state to the nearest state with an uncovered command, takes it, and goes on from there (breadth-first, so walks
+    are short) until nothing uncovered is reachable; plus seeded random walks."""
+    env = [(u, v) for u in out for v in out[u] if last[v] != "tau"]
+    unc = set(env)
+
+    def nearest(src):
+        par = {src: None}
+        q = collections.deque([src])
+        while q:
+            u = q.popleft()
+            if any((u, v) in unc for v in out[u]):
+                path = [u]
+                while par[u] is not None:
+                    u = par[u]
+                    path.append(u)
+                return path[::-1]
+            for v in out[u]:
+                if v not in par:
+                    par[v] = u
+                    q.append(v)
+        return None
+
+    walks = []
+    while unc:
+        p = [init]
+        while len(p) < cap:
+            q = nearest(p[-1])
+            if q is None:
+                break
+            p += q[1:]
+            p.append([z for z in out[p[-1]] if (p[-1], z) in unc][0])
+            for a, b in zip(p, p[1:]):
+                unc.discard((a, b))
+        if len(p) == 1:
+            break
+        walks.append(p)
+    for _ in range(nrandom):
+        p = [init]
+        while len(p) < cap:
+            succ = [z for z in out[p[-1]] if z != p[-1]]
+            if not succ or (len(p) > 8 and rng.random() < 0.03):
+                break
+            p.append(succ[rng.randrange(len(succ))])
+        walks.append(p)
+    seen, cmds = set(), []
+    for p in walks:
+        c = [last[v] for v in p[1:] if last[v] != "tau"]
+        if c and tuple(c) not in seen:
+            seen.add(tuple(c))
+            cmds.append(c)
+    return cmds, len(env)
+
+
+def nested_cases(cmds, rng, first_id):
+    """Turns command walks of the 2-inner-context generator into driver cases: "finish:end" becomes every ending of the
+    outer run in turn; a "stop" command becomes 1-3 Stop calls (the model admits them: NestedTrace has NStop = 5); every
+    third walk runs on THREE inner contexts (the two of the walk mapped into them in a seeded way, the third commanded at
+    seeded points before the outer run ends, otherwise running until Close stops it)."""
+    cases = []
+    for n, c in enumerate(cmds):
+        k = 3 if n % 3 == 2 else 2
+        sigma = {"1": "1", "2": "2"}
+        if k == 3:
+            a, b = rng.sample(["1", "2", "3"], 2)
+            sigma = {"1": a, "2": b}
+        third = [x for x in "123" if x not in sigma.values()][0] if k == 3 else None
+        tstate = "gateB"
+        steps = []
+        ending = False
+        for cmd in c:
+            f = cmd.split(":")
+            if third and not ending and tstate != "gone" and rng.random() < 0.25:
+                if tstate == "gateB":
+                    steps.append("ienter:" + third)
+                    tstate = "body"
+                else:
+                    kind = rng.choice(["commit", "commit", "done", "err"])
+                    steps.append("ifinish:%s:%s" % (third, kind))
+                    tstate = "gateB" if kind == "commit" else "gone"
+            if cmd == "finish:end":
+                steps.append("finish:" + ENDS[(n + len(steps)) % len(ENDS)])
+                ending = True
+            elif cmd == "stop":
+                steps += ["stop"] * (1 + (rng.randrange(3) if rng.random() < 0.5 else 0))
+                ending = True
+            elif f[0] in ("ienter", "ifinish"):
+                f[1] = sigma[f[1]]
+                steps.append(":".join(f))
+            else:
+                steps.append(cmd)
+        cases.append({"id": first_id + n, "mode": "nproto", "mix": "nested%d" % k, "inner": k, "bound": BOUND,
+                      "steps": steps, "closeerr": n % 5 == 0})
+    return cases
+
+
 def free_cases(rng, mix, n, first_id):
     cases = []
     for i in range(n):
@@ -173,8 +276,8 @@ def pfold(specdir, segs, timeout=1500):
     return verdicts, True, res.distinct, res.generated, None
 
 
-def mfold(specdir, segs, timeout=900, max_rounds=4):
-    """Conformance of case segments to Lifecycle.tla (free internal steps => search). Returns
+def mfold(specdir, segs, timeout=900, max_rounds=4, module="LifecycleTrace", cfg="LifecycleTrace.cfg"):
+    """Conformance of case segments to Lifecycle.tla / NestedLifecycle.tla (free internal steps => search). Returns
     (accepted, rejected segments, states, transitions, errors)."""
     acc, rej, st, tr, errs = 0, [], 0, 0, []
     part = list(segs)
@@ -190,7 +293,7 @@ def mfold(specdir, segs, timeout=900, max_rounds=4):
                 for ln in s:
                     f.write(json.dumps(ln) + "\n")
                     n += 1
-        res = V.tlc(work, "LifecycleTrace", cfg="LifecycleTrace.cfg", workers=1, timeout=timeout, deadlock=False)
+        res = V.tlc(work, module, cfg=cfg, workers=1, timeout=timeout, deadlock=False)
         shutil.rmtree(work, ignore_errors=True)
         st += res.distinct
         tr += res.generated
@@ -222,6 +325,7 @@ def set_consts(work, cfg, nstop, nrun):
     s = open(p).read()
     s = re.sub(r"NStop = \d+", "NStop = %d" % nstop, s)
     s = re.sub(r"NRun = \d+", "NRun = %d" % nrun, s)
+    s = re.sub(r"NInner = \d+", "NInner = %d" % nrun, s)  # nested configurations: the second number is NInner
     open(p, "w").write(s)
 
 
